@@ -10,6 +10,9 @@ NOT_APPLICABLE = {
            'obligations it rests on are decided statically under C04/C07/C10, the protocol-level claim is not',
 }
 
+# Properties whose rule module has been reviewed and passes on the unchanged tree; only these are claimed in MANIFEST.json.
+READY = ['C01', 'C04', 'C21']
+
 ENGINES = {
     'source_commits': [],
     'engines': [
